@@ -478,24 +478,6 @@ pub fn gen_par(rng: &mut StdRng, u: &Universe, stored: &[(u64, u64)], interferin
     if pair.0.is_empty() || pair.1.is_empty() { None } else { Some(pair) }
 }
 
-/// Run the two inserts from two OS threads released by a barrier.
-fn insert_concurrently<S: Store>(s: &S, a: Vec<ExtendedHeader>, b: Vec<ExtendedHeader>) -> (u64, u64) {
-    let barrier = std::sync::Barrier::new(2);
-    std::thread::scope(|sc| {
-        let ha = sc.spawn(|| {
-            let rt = tokio::runtime::Builder::new_current_thread().enable_all().build().unwrap();
-            barrier.wait();
-            rt.block_on(async { code(&s.insert(a).await) })
-        });
-        let hb = sc.spawn(|| {
-            let rt = tokio::runtime::Builder::new_current_thread().enable_all().build().unwrap();
-            barrier.wait();
-            rt.block_on(async { code(&s.insert(b).await) })
-        });
-        (ha.join().unwrap_or(99), hb.join().unwrap_or(99))
-    })
-}
-
 async fn history<S: Store>(
     s: &S,
     backend: &str,
@@ -657,6 +639,49 @@ async fn history<S: Store>(
     (results, metas, sigs)
 }
 
+/// Run two arbitrary operations from two OS threads released by a spinning start line.
+fn apply_concurrently<S: Store>(s: &S, x: &Op, y: &Op, spin_x: u32, spin_y: u32) -> (u64, u64) {
+    use std::sync::atomic::{AtomicBool, AtomicU32, Ordering};
+    // a spinning start line: both threads are released within nanoseconds of each other, then each burns its
+    // own small random head start, so that the runs scan the relative timings of the two operations
+    let (ready, go) = (AtomicU32::new(0), AtomicBool::new(false));
+    std::thread::scope(|sc| {
+        let hx = sc.spawn(|| {
+            let rt = tokio::runtime::Builder::new_current_thread().enable_all().build().unwrap();
+            ready.fetch_add(1, Ordering::SeqCst);
+            while !go.load(Ordering::Acquire) {
+                std::hint::spin_loop();
+            }
+            for i in 0..spin_x {
+                std::hint::black_box(i);
+            }
+            rt.block_on(apply(s, x))
+        });
+        let hy = sc.spawn(|| {
+            let rt = tokio::runtime::Builder::new_current_thread().enable_all().build().unwrap();
+            ready.fetch_add(1, Ordering::SeqCst);
+            while !go.load(Ordering::Acquire) {
+                std::hint::spin_loop();
+            }
+            for i in 0..spin_y {
+                std::hint::black_box(i);
+            }
+            rt.block_on(apply(s, y))
+        });
+        while ready.load(Ordering::SeqCst) < 2 {
+            std::hint::spin_loop();
+        }
+        go.store(true, Ordering::Release);
+        (hx.join().unwrap_or(99), hy.join().unwrap_or(99))
+    })
+}
+
+/// Two inserts at the same instant.
+fn insert_concurrently<S: Store>(s: &S, a: Vec<ExtendedHeader>, b: Vec<ExtendedHeader>) -> (u64, u64) {
+    let n = (a.len() as u32 * 7919 + b.len() as u32 * 104729) % 3000;
+    apply_concurrently(s, &Op::Insert(a), &Op::Insert(b), n, 3000 - n)
+}
+
 /// Many short histories, each: a stored range, then ONE pair of interfering inserts issued concurrently (overlapping
 /// batches, honest + fork).  A race between two writers needs the right instant; volume gives it the chance.
 async fn par_stress<S: Store>(mk: &mut dyn FnMut() -> S, backend: &str, seed: u64, rounds: u64, len: u64, tw: &mut TraceWriter, sum: &mut Summary) {
@@ -669,7 +694,7 @@ async fn par_stress<S: Store>(mk: &mut dyn FnMut() -> S, backend: &str, seed: u6
         let mut it = Intern { base_secs: base.unix_timestamp(), ..Default::default() };
         tw.emit(json!({"name": "reset", "backend": backend, "run": 5000 + round}));
         let p = rng.gen_range(1..len / 2);
-        let q = p + rng.gen_range(0..4);
+        let q = if round % 2 == 1 { (p + 11).min(len - 5) } else { p + rng.gen_range(0..4) };
         let pre: Vec<ExtendedHeader> = (p..=q).map(|h| u.a[(h - 1) as usize].clone()).collect();
         let mut emit_ids = |batch: &Vec<ExtendedHeader>, it: &mut Intern, tw: &mut TraceWriter| -> Vec<u64> {
             let mut ids = vec![];
@@ -685,6 +710,67 @@ async fn par_stress<S: Store>(mk: &mut dyn FnMut() -> S, backend: &str, seed: u6
         let ids = emit_ids(&pre, &mut it, tw);
         let r = code(&s.insert(pre).await);
         tw.emit(json!({"name": "insert", "b": ids, "res": r, "st": project(&s, &it, len).await}));
+        if round % 2 == 1 {
+            // the node's real concurrency: the syncer inserts next to / the pruner removes / the sampler marks and
+            // records metadata on the same heights at the same instant
+          let mut top = q;
+          for target0 in p..=q {
+            // (a tiny random head start for one side varies the instant at which the two meet)
+            let above: Vec<ExtendedHeader> = (top + 1..=(top + rng.gen_range(1..=2)).min(len)).map(|h| u.a[(h - 1) as usize].clone()).collect();
+            let target = if rng.gen_bool(0.8) { target0 } else { top + 1 };
+            let other = match rng.gen_range(0..3) {
+                0 => Op::Remove(target),
+                1 => Op::Mark(target),
+                _ => Op::Meta(target, vec![rng.gen_range(1..=6), rng.gen_range(1..=6)]),
+            };
+            let (x, y) = match rng.gen_range(0..4) {
+                0 if !above.is_empty() => (Op::Insert(above), other),
+                1 => (Op::Remove(target), Op::Mark(target)),
+                2 => (Op::Remove(target), Op::Meta(target, vec![rng.gen_range(1..=6)])),
+                _ if !above.is_empty() => (other, Op::Insert(above)),
+                _ => (Op::Mark(target), Op::Meta(target, vec![rng.gen_range(1..=6)])),
+            };
+            let mut enc = |o: &Op, it: &mut Intern, tw: &mut TraceWriter| -> Value {
+                match o {
+                    Op::Insert(b) => json!({"k": "insert", "b": emit_ids(b, it, tw), "h": 0, "cs": []}),
+                    Op::Remove(h) => json!({"k": "remove", "b": [], "h": h, "cs": []}),
+                    Op::Mark(h) => json!({"k": "mark", "b": [], "h": h, "cs": []}),
+                    Op::Meta(h, cs) => json!({"k": "meta", "b": [], "h": h, "cs": cs}),
+                }
+            };
+            let (ex, ey) = (enc(&x, &mut it, tw), enc(&y, &mut it, tw));
+            let (rx, ry) = apply_concurrently(&s, &x, &y, rng.gen_range(0..3000), rng.gen_range(0..3000));
+            let mut ev = json!({"name": "par2", "x": ex, "y": ey, "rx": rx, "ry": ry, "ra": rx, "rb": ry});
+            if rx == 99 || ry == 99 {
+                ev["name"] = json!("panic");
+                ev["op"] = json!("concurrent-operations");
+                ev["why"] = json!("a concurrent operation panicked");
+                tw.emit(ev);
+                sum.add("panics", 1);
+                continue;
+            }
+            match std::panic::AssertUnwindSafe(project(&s, &it, len)).catch_unwind().await {
+                Ok(st) => ev["st"] = st,
+                Err(_) => {
+                    ev["name"] = json!("panic");
+                    ev["op"] = json!("query-after-concurrent-operations");
+                    ev["why"] = json!("query panicked");
+                    tw.emit(ev);
+                    sum.add("panics", 1);
+                    continue;
+                }
+            }
+            sum.add("concurrent_mixed_pairs", 1);
+            for pr in ["C19", "C20", "C21"] {
+                sum.case(pr, Some(format!("{backend}/stress2/{round}/{target0}")), || ev.clone());
+            }
+            if let Some(r) = ev["st"]["stored"].as_array().and_then(|a| a.last()).and_then(|r| r[1].as_u64()) {
+                top = top.max(r);
+            }
+            tw.emit(ev);
+          }
+            continue;
+        }
         let Some((a, b)) = gen_par(&mut rng, &u, &[(p, q)], true) else { continue };
         let (ia, ib) = (emit_ids(&a, &mut it, tw), emit_ids(&b, &mut it, tw));
         let (ra, rb) = insert_concurrently(&s, a, b);
